@@ -163,6 +163,82 @@ class CancellableWriter(Contract):
         pass
 
 
+TRANSPORT = "src/chuk_mcp/transports/stdio/transport.py"
+
+
+class ClientEnterModular(Contract):
+    """call-site form of StdioClient.__aenter__ (spawn verified in C20): the client is entered, or the spawn failure
+    (any Exception) propagates"""
+    key = f"{STDIO}::StdioClient.__aenter__"
+
+    def apply(self, I, args, kwargs, node):
+        E.checkpoint_nofire(I)
+        if I.choose_n(2, "client_enter") == 1:
+            I.ghost["client_enter_failed"] = True
+            raise PyRaise(I.make_exc("AnyException", V.VStr("cannot start the command")), "AnyException")
+        I.ghost["client_entered"] = I.ghost.get("client_entered", 0) + 1
+        return args[0]
+
+
+class ClientExitModular(Contract):
+    """call-site form of StdioClient.__aexit__ (proved above): shuts the client down, never swallows the body's exception"""
+    key = f"{STDIO}::StdioClient.__aexit__"
+
+    def apply(self, I, args, kwargs, node):
+        E.checkpoint_nofire(I)
+        I.ghost["client_exits"] = I.ghost.get("client_exits", 0) + 1
+        I.ghost["client_exit_args"] = list(args[1:])
+        return V.FALSE
+
+
+class TransportEnter(Contract):
+    """StdioTransport.__aenter__: returns the transport with an entered client; a command that cannot be started makes
+    entering raise (the failure is not swallowed)"""
+    key = f"{TRANSPORT}::StdioTransport.__aenter__"
+    prop = "C16"
+    covers = ("return", "raise:AnyException")
+
+    def setup(self, I):
+        cmd = I.fresh("command")
+        I.assume(z3.And(V.is_str(cmd), z3.Length(Val.s(cmd)) > 0))
+        from pyvc import pyd
+        p = I.new_object(ST.klass(I, f"{ST.PARAMS}::StdioParameters"),
+                         {"command": cmd, "args": V.VList([]), "env": V.NONE, pyd.EXTRA: V.VDict([])})
+        self.transport = I.new_object(ST.klass(I, f"{TRANSPORT}::StdioTransport"), {"parameters": p, "_client": V.NONE})
+        return [self.transport], {}
+
+    def post(self, I, result):
+        I.oblige(self.name("a_command_that_cannot_be_started_makes_entering_raise"),
+                 z3.BoolVal(not I.ghost.get("client_enter_failed")))
+        I.oblige(self.name("returns_the_transport_with_one_entered_client"),
+                 z3.And(result == self.transport, z3.BoolVal(I.ghost.get("client_entered", 0) == 1)))
+
+    def post_exc(self, I, e):
+        I.oblige(self.name(f"raises_only_the_clients_own_failure[{e.cls_name}]"),
+                 z3.BoolVal(e.cls_name == "CancelledError" or (e.cls_name == "AnyException" and bool(I.ghost.get("client_enter_failed")))))
+
+
+class TransportExit(Contract):
+    """StdioTransport.__aexit__: shuts its client down exactly once, handing on the exit details, and does not swallow
+    the body's exception"""
+    key = f"{TRANSPORT}::StdioTransport.__aexit__"
+    prop = "C16"
+    covers = ("return",)
+
+    def setup(self, I):
+        ccd = ST.klass(I, f"{STDIO}::StdioClient")
+        self.client = I.new_object(ccd, {})
+        self.transport = I.new_object(ST.klass(I, f"{TRANSPORT}::StdioTransport"), {"_client": self.client})
+        self.exc = [I.fresh("exc_type"), I.fresh("exc_val"), I.fresh("exc_tb")]
+        return [self.transport, *self.exc], {}
+
+    def post(self, I, result):
+        I.oblige(self.name("client_shut_down_exactly_once"), z3.BoolVal(I.ghost.get("client_exits", 0) == 1))
+        a = I.ghost.get("client_exit_args") or [None, None, None]
+        I.oblige(self.name("exit_details_handed_on"), z3.And(*[x == y for x, y in zip(a, self.exc)]) if a[0] is not None else z3.BoolVal(False))
+        I.oblige(self.name("body_exception_not_swallowed"), z3.Not(V.truthy(result)))
+
+
 class C16(Check):
     prop = "C16"
     level = "other"
@@ -185,11 +261,12 @@ class C16(Check):
         ctx.dynamic_call_hook = C06.dynamic_call
 
     def modular(self):
-        return {f"{ST.FASTJSON}::dumps": ST.DumpsModular()}
+        return {f"{ST.FASTJSON}::dumps": ST.DumpsModular(), f"{STDIO}::StdioClient.__aenter__": ClientEnterModular(),
+                f"{STDIO}::StdioClient.__aexit__": ClientExitModular()}
 
     def contracts(self):
         return [TerminateProcess(False), TerminateProcess(True), AExit("normal"), AExit("body_exception"),
-                AExit("cancelled"), CancellableWriter()]
+                AExit("cancelled"), CancellableWriter(), TransportEnter(), TransportExit()]
 
     def loop_invariants(self):
         from checks import C06
